@@ -34,6 +34,19 @@ def run_td7_case(case):
     rng = np.random.default_rng(case["seed"])
     cfg = td7_cfg(rng, case.get("idx", 0))
     cfg["total_timesteps"] += cfg["global_step"]  # the budget is absolute
+    if case.get("idx", 0) % 2 == 0:
+        # process history: an earlier, unrelated train_td7 call (own networks,
+        # buffer and environment) must not influence this one - the statement
+        # speaks about the steps collected and the returns seen in *this* run
+        pre = dict(cfg, seed=cfg["seed"] + 991, global_step=0,
+                   total_timesteps=int(rng.integers(30, 50)),
+                   script=[[3, "T"], [2, "U"], [5, "T"]], logger=False)
+        pre_run = make_run("td7", pre)
+        pre_run.trace.snap_enabled = False
+        ok, _ = guarded(res, "C15/raises/train_td7", pre_run.call)
+        if not ok:
+            return res
+        res.see("td7_runs_after_an_earlier_run")
     run = make_run("td7", cfg)
     tr = run.trace
     tr.snap_enabled = False
